@@ -20,6 +20,7 @@ import (
 	"os"
 	"path/filepath"
 	"sort"
+	"strings"
 	"sync"
 	"syscall"
 	"time"
@@ -37,6 +38,7 @@ func init() {
 	register("dispatch-real", dispatchReal)
 	register("dispatch-arith", dispatchArith)
 	register("dispatch-batch", dispatchBatch)
+	register("retry-blocks", retryBlocks)
 }
 
 var c06Quiet = slog.New(slog.NewTextHandler(io.Discard, nil))
@@ -1001,4 +1003,73 @@ func dispatchBatch(in []byte) (any, error) {
 		outs = append(outs, o)
 	}
 	return outs, nil
+}
+
+
+// ---------------------------------------------------------------------------
+// retry-blocks: a route with SEVERAL deliver blocks, each with its own (full, partial or absent) retry directive, through the real
+// Parse + Compile + buildDispatchRoutes: the retry settings each target ends up with.  The check compares every block with the same
+// block compiled alone on a route of its own - a target's retry policy is its block's directive over the defaults, whatever its
+// neighbours say.
+
+func retryBlocks(in []byte) (any, error) {
+	var req struct {
+		Cases []struct {
+			Defaults string   `json:"defaults"` // text after "retry" in defaults { deliver { ... } }, "" = none
+			Blocks   []string `json:"blocks"`   // text after "retry" per deliver block, "" = no retry directive
+		} `json:"cases"`
+	}
+	if err := json.Unmarshal(in, &req); err != nil {
+		return nil, err
+	}
+	type tgt struct {
+		Max        int    `json:"max"`
+		Base       int64  `json:"base"`
+		Cap        int64  `json:"cap"`
+		JitterBits uint64 `json:"jitter_bits"`
+	}
+	type res struct {
+		OK      bool     `json:"ok"`
+		Errors  []string `json:"errors,omitempty"`
+		Targets []tgt    `json:"targets"`
+	}
+	var out []res
+	for _, c := range req.Cases {
+		var b strings.Builder
+		b.WriteString("ingress {\n  listen \":18080\"\n}\n")
+		if c.Defaults != "" {
+			b.WriteString("defaults {\n  deliver {\n    retry " + c.Defaults + "\n  }\n}\n")
+		}
+		b.WriteString("\"/r\" {\n")
+		for i, blk := range c.Blocks {
+			b.WriteString(fmt.Sprintf("  deliver \"http://127.0.0.1:9/t%d\" {\n", i))
+			if blk != "" {
+				b.WriteString("    retry " + blk + "\n")
+			}
+			b.WriteString("    timeout 1s\n  }\n")
+		}
+		b.WriteString("}\n")
+		var r res
+		compiled, vr, err := c06CompileText(b.String())
+		if err != nil {
+			r.Errors = []string{"parse: " + err.Error()}
+			out = append(out, r)
+			continue
+		}
+		if !vr.OK {
+			r.Errors = vr.Errors
+			out = append(out, r)
+			continue
+		}
+		routes := app.VerifRLBuildDispatchRoutes(compiled)
+		if len(routes) != 1 {
+			return nil, fmt.Errorf("expected one deliver route, got %d", len(routes))
+		}
+		r.OK = true
+		for _, t := range routes[0].Targets {
+			r.Targets = append(r.Targets, tgt{Max: t.Retry.Max, Base: int64(t.Retry.Base), Cap: int64(t.Retry.Cap), JitterBits: math.Float64bits(t.Retry.Jitter)})
+		}
+		out = append(out, r)
+	}
+	return map[string]any{"cases": out}, nil
 }
